@@ -228,11 +228,17 @@ class _:
         ]
 
 
-@contract("tola.assembly.build_utils.ChrNamer.add_chr_prefix", status="TRUSTED")
+@contract("tola.assembly.build_utils.ChrNamer.add_chr_prefix", properties=("C09", "C10"))
 class _:
+    # "<prefix>..": the scaffold's name gets the chromosome prefix unless it already starts with it; nothing else changes
     params = {"self": CN, "scffld": TRef("Scaffold")}
     result = NONE
     modifies = staticmethod(lambda o: [("field", "Scaffold", "name", o.scffld)])
+    ensures = staticmethod(lambda o, n, res: [
+        ("prefixed-once", n.scffld.name == z3.If(z3.PrefixOf(o.self.chr_prefix, o.scffld.name), o.scffld.name,
+                                                 z3.Concat(o.self.chr_prefix, o.scffld.name))),
+        ("starts-with-the-prefix", z3.PrefixOf(o.self.chr_prefix, n.scffld.name)),
+    ])
 
 
 @contract("tola.assembly.build_utils.ChrNamer.name_chromosomes", status="TRUSTED")
